@@ -7,6 +7,7 @@ package main
 import (
 	"bytes"
 	"context"
+	"encoding/json"
 	"errors"
 	"fmt"
 	"io"
@@ -674,6 +675,83 @@ func runCopy(mode string, seed int64, tier string, sc *Script) map[string]any {
 			reg.Close()
 		}
 	}
+	// C01 under cancellation: the context is cancelled before the call, or while the k-th
+	// source fetch is under way.  Whatever happens, a nil error means the whole graph is there
+	// and the reference is tagged.
+	if mode == "C01" {
+		reps := 30
+		if tier == "thorough" {
+			reps = 600
+		}
+		for i := 0; i < reps; i++ {
+			u := GenDAG(rng, GenCfg{Blobs: 1 + rng.Intn(4), Manifests: 1 + rng.Intn(4), Indexes: true})
+			root := -1
+			for k := len(u.Nodes) - 1; k >= 0; k-- {
+				if u.Nodes[k].Kind.IsManifest() {
+					root = k
+					break
+				}
+			}
+			if root < 0 {
+				continue
+			}
+			sc.Case("copy-cancelled")
+			sc.NonTrivial()
+			closure := downClosure(u, []int{root})
+			src := memory.New()
+			pushAll(ctx, src, u, closure)
+			src.Tag(ctx, u.Nodes[root].Desc, "srcref")
+			dstT := memory.New()
+			cctx, cancel := context.WithCancel(ctx)
+			at := rng.Intn(4) - 1 // -1: before the call
+			if i%3 == 0 {
+				at = -1
+			}
+			r := newCopyRun(u, seed+int64(i))
+			var fetchNo int32
+			r.onAnyFetch = func() {
+				if int(atomic.AddInt32(&fetchNo, 1))-1 == at {
+					cancel()
+				}
+			}
+			if at < 0 {
+				cancel()
+			}
+			isrc := &srcTarget{instrSrc: instrSrc{inner: src, r: r}, t: src}
+			var err error
+			if i%2 == 0 {
+				_, err = oras.Copy(cctx, isrc, "srcref", dstT, "v", oras.CopyOptions{CopyGraphOptions: oras.CopyGraphOptions{Concurrency: 1 + rng.Intn(3)}})
+			} else {
+				err = oras.CopyGraph(cctx, isrc, dstT, u.Nodes[root].Desc, oras.CopyGraphOptions{Concurrency: 1 + rng.Intn(3)})
+				if err == nil {
+					dstT.Tag(ctx, u.Nodes[root].Desc, "v")
+				}
+			}
+			cancel()
+			res := "err"
+			if err == nil {
+				res = "ok"
+				var want []int
+				for _, k := range closure {
+					if u.Nodes[k].Kind != KForeign {
+						want = append(want, k)
+					}
+				}
+				if got := presentSet(ctx, dstT, u); got != fmtSet(want) {
+					res = "ok-but-incomplete(" + got + ")"
+				} else if d, rerr := dstT.Resolve(ctx, "v"); rerr != nil || u.IDOf(ocispec.Descriptor{MediaType: d.MediaType, Digest: d.Digest, Size: d.Size}) != root {
+					res = "ok-but-untagged"
+				}
+			}
+			verdict := "fails-or-complete"
+			if res != "ok" && res != "err" {
+				verdict = res
+			}
+			sc.Op(verdict, "cp cancelled at=%d res=%s", at, res)
+			runs++
+			sc.Count("copy-cancelled:" + res)
+		}
+	}
 	// C04: the same accounting over ExtendedCopyGraph with several roots (a subject with
 	// several referrers, each with blobs of its own): one shared budget of Concurrency
 	if mode == "C04" {
@@ -737,6 +815,77 @@ func runCopy(mode string, seed int64, tier string, sc *Script) map[string]any {
 			if r.maxDstInFl > maxDst {
 				maxDst = r.maxDstInFl
 			}
+		}
+	}
+	// C04: Copy with a MapRoot that reads the root through the storage it is handed and selects
+	// one of the manifests an index lists: every node of the selected graph still crosses once
+	if mode == "C04" {
+		reps := 12
+		if tier == "thorough" {
+			reps = 200
+		}
+		for i := 0; i < reps; i++ {
+			u := NewUniverse()
+			var mans []int
+			for k := 0; k < 2+rng.Intn(2); k++ {
+				cfgB := u.AddBlob(ocispec.MediaTypeImageConfig, []byte(fmt.Sprintf("{\"maproot\":\"%d-%d\"}", i, k)))
+				var layers []int
+				for b := 0; b < 1+rng.Intn(3); b++ {
+					layers = append(layers, u.AddBlob(ocispec.MediaTypeImageLayer, []byte(fmt.Sprintf("mr-%d-%d-%d", i, k, b))).ID)
+				}
+				mans = append(mans, u.AddImage(KOCIManifest, cfgB.ID, layers, -1, "", map[string]string{"k": fmt.Sprint(k)}).ID)
+			}
+			idx := u.AddIndex(KOCIIndex, mans, -1, "", map[string]string{"i": fmt.Sprint(i)})
+			pick := rng.Intn(len(mans))
+			conc := 1 + rng.Intn(3)
+			sc.Case("maproot-copy")
+			sc.NonTrivial()
+			src := memory.New()
+			all := make([]int, len(u.Nodes))
+			for j := range all {
+				all[j] = j
+			}
+			pushAll(ctx, src, u, all)
+			src.Tag(ctx, idx.Desc, "srcref")
+			dstT := memory.New()
+			r := newCopyRun(u, seed+int64(i))
+			opts := oras.CopyOptions{CopyGraphOptions: r.options(conc)}
+			opts.MapRoot = func(ctx context.Context, s content.ReadOnlyStorage, root ocispec.Descriptor) (ocispec.Descriptor, error) {
+				b, err := content.FetchAll(ctx, s, root)
+				if err != nil {
+					return ocispec.Descriptor{}, err
+				}
+				var ix ocispec.Index
+				if err := json.Unmarshal(b, &ix); err != nil {
+					return ocispec.Descriptor{}, err
+				}
+				return ix.Manifests[pick], nil
+			}
+			isrc := &srcTarget{instrSrc: instrSrc{inner: src, r: r}, t: src}
+			idst := &instrTarget{instrDst: instrDst{inner: dstT, r: r}, t: dstT}
+			got, err := oras.Copy(ctx, isrc, "srcref", idst, "picked", opts)
+			res := "ok"
+			if err != nil {
+				res = "err:" + strings.ReplaceAll(err.Error(), " ", "_")
+			} else if u.IDOf(ocispec.Descriptor{MediaType: got.MediaType, Digest: got.Digest, Size: got.Size}) != mans[pick] {
+				res = "returned-other-root"
+			}
+			sc.Op(res, "cp remote res src=maproot dst=memory")
+			dup := "ok"
+			for n, c := range r.pushes {
+				if c > 1 {
+					dup = fmt.Sprintf("push-twice(%d)", n)
+				}
+			}
+			for n, c := range r.fetches {
+				if c > 1 {
+					dup = fmt.Sprintf("fetch-twice(%d)", n)
+				}
+			}
+			sc.Op(dup, "cp once")
+			sc.Op(presentSet(ctx, dstT, u), "cp xpresent all=%s", fmtSet(downClosure(u, []int{mans[pick]})))
+			runs++
+			sc.Count("copy-maproot")
 		}
 	}
 	sc.Extra["evaluations"] = runs
